@@ -1,5 +1,5 @@
 """Property -> harnesses registry."""
-import h_doc, h_c13, h_lib, h_squash, h_pos, h_paths, h_titles, h_actions
+import h_doc, h_c13, h_lib, h_squash, h_pos, h_paths, h_titles, h_actions, h_events
 
 def doc(prog, tier):
     return h_doc.DocHarness(prog, tier)
@@ -57,6 +57,7 @@ PATHS_SPEC = {'make': lambda prog, tier: h_paths.PathsHarness(prog, tier), 'time
 
 TITLES_SPEC = {'make': lambda prog, tier: h_titles.TitlesHarness(prog, tier), 'time_limit': {'quick': 300, 'thorough': 600}}
 
+EVENTS_SPEC = {'make': lambda prog, tier: h_events.EventsHarness(prog, tier), 'time_limit': {'quick': 300, 'thorough': 900}}
 ACTIONS_SPEC = {'make': lambda prog, tier: h_actions.ActionsHarness(prog, tier), 'time_limit': {'quick': 420, 'thorough': 2400}, 'crates': ('liwe', 'iwes')}
 ACTIONS_LISTS_SPEC = {'make': lambda prog, tier: h_actions.ActionsHarness(prog, tier, 'lists'), 'time_limit': {'quick': 420, 'thorough': 2400}, 'crates': ('liwe', 'iwes')}
 ACT_NOTES = COMMON + [
@@ -92,8 +93,8 @@ PROPS = {
         'line_starts over strings given by their line structure (symbolic line lengths, LF / CRLF / missing final newline), std str::lines / '
         'split_inclusive / split / len modelled on that structure',
         'which byte ranges pulldown-cmark reports for a block (e.g. a last line without newline) and UTF-16 vs byte columns are outside the claim']},
-    'C01': {'specs': DOC_ALL + [LIB_META_SPEC], 'notes': COMMON + ['claimed at block level: every block/token of the input appears once, in order, in the same container, same kind']},
-    'C03': {'specs': DOC_ALL + [POSB_SPEC], 'notes': COMMON + ['claimed for blocks -> graph -> tree -> projection: every compiler-emitted panic edge / unwrap / expect / explicit panic reachable within the bounds is a violation']},
+    'C01': {'specs': DOC_ALL + [LIB_META_SPEC, EVENTS_SPEC], 'notes': COMMON + ['claimed at block level: every block/token of the input appears once, in order, in the same container, same kind']},
+    'C03': {'specs': DOC_ALL + [POSB_SPEC, EVENTS_SPEC], 'notes': COMMON + ['claimed for blocks -> graph -> tree -> projection: every compiler-emitted panic edge / unwrap / expect / explicit panic reachable within the bounds is a violation']},
     'C07': {'specs': DOC_ALL, 'notes': COMMON + ['heading levels are symbolic u8 in 1..6; laws: order kept, emitted outline well nested, well-nested input keeps its levels, blocks stay under the nearest preceding heading']},
     'C20': {'specs': DOC_ALL + [LIB_SPEC], 'notes': COMMON + ['representation invariant checked on every arena produced within the bounds (establish step) and after every update_key step of the library harness (preserve step: RI, ids never reused, other notes untouched)']},
 }
